@@ -63,12 +63,22 @@ func nativeReplay(pkgDir string, replayPath string, label string, kind string) (
 		if strings.Contains(text, "NATIVE-REPLAY: PANIC") || strings.Contains(text, "panic:") {
 			return true, ""
 		}
+	case "complete":
+		if strings.Contains(text, "NATIVE-REPLAY: harness completed, no assertion failed") {
+			return true, ""
+		}
 	}
 	tail := text
 	if len(tail) > 1500 {
 		tail = tail[len(tail)-1500:]
 	}
 	return false, tail
+}
+
+// nativeRun runs a harness natively and reports whether it completed without a failed assertion.
+func nativeRun(pkgDir, replayPath string) (bool, string) {
+	ok, out := nativeReplay(pkgDir, replayPath, "\x00none", "complete")
+	return ok, out
 }
 
 func goCacheDir() string {
